@@ -618,6 +618,8 @@ namespace ValueFlow
                     continue;
                 Value v(val);
                 v.intvalue = ~v.intvalue;
+                // the complement reverses the order: a lower bound of the operand is an upper bound of the result
+                v.invertBound();
                 std::uint8_t bits = 0;
                 if (tok->valueType() &&
                     tok->valueType()->sign == ValueType::Sign::UNSIGNED &&
